@@ -240,6 +240,7 @@ func RunHarness(ld *Loaded, pkgPath, fnName string, cfg *Config, workers int) (*
 				}
 			}
 			in := newInterpreter(ld, eng)
+			eng.in = in
 			if err := in.runInits(pkg); err != nil {
 				errc <- err
 				// drain: mark explorer as failed
